@@ -451,14 +451,29 @@ def rule_r6(ctx) -> List[R.Inst]:
     for n in fn.node.body:
         tgt = n.target if isinstance(n, ast.AugAssign) else (n.targets[0] if isinstance(n, ast.Assign) else None)
         if tgt is not None and leaf2(tgt) == "num" and not isinstance(n.value, ast.ListComp) and \
-                not (isinstance(n.value, ast.Call) and call_name(n.value) == "astype"):
+                not (isinstance(n.value, ast.Call) and call_name(n.value) == "astype" and leaf2(n.value.func.value) == "num"):
             if isinstance(n, ast.AugAssign):
                 val = ast.BinOp(left=tgt, op=n.op, right=n.value)
             else:
                 val = n.value
+                while isinstance(val, ast.Call) and call_name(val) in ("astype", "round") and isinstance(val.func, ast.Attribute):
+                    val = val.func.value
             sc.append((n, val))
     if len(sc) == 1:
-        if sym.canon(sc[0][1], leaf2).same(sym.parse("num * new_den / den")):
+        inexact = None
+        for dnode in ast.walk(sc[0][1]):
+            if isinstance(dnode, ast.BinOp) and isinstance(dnode.op, ast.Div):
+                ls = sym.canon(dnode.left, leaf2).symbols()
+                rs = sym.canon(dnode.right, leaf2).symbols()
+                if "num" in ls and "new_den" not in ls and "den" in rs:
+                    inexact = dnode
+        if sym.canon(sc[0][1], leaf2).same(sym.parse("num * new_den / den")) and inexact is not None:
+            insts.append(R.viol(rid, "slot:rescale", file, sc[0][0].lineno,
+                                f"the slot is computed as '{unparse(sc[0][1])}': the quotient '{unparse(inexact)}' is evaluated first and "
+                                f"is not representable for denominators such as 7, 11, 13, 21 (17/28*84 = 50.999…), and the later int() "
+                                f"truncates it one slot early; multiply by the exact ratio new_den/den instead",
+                                construct=f"inexact quotient first: {unparse(sc[0][1])}"))
+        elif sym.canon(sc[0][1], leaf2).same(sym.parse("num * new_den / den")):
             insts.append(R.ok(rid, "slot:rescale", file, sc[0][0].lineno, idiom="num = num * new_den / den"))
         else:
             insts.append(R.viol(rid, "slot:rescale", file, sc[0][0].lineno,
